@@ -93,6 +93,62 @@ def _cond_text(cfg, stmt):
     return ' and '.join(('%s' if p else 'not (%s)') % t for t, p in sorted(set(fs))) or None
 
 
+def cond_formula(fnode, cfg, stmt):
+    """the path condition of stmt as one expression over atoms: facts joined by `and`, single-binding flags replaced by their definitions"""
+    from .core import inline_expr
+    parts = []
+    for t, p, _ in facts_at(cfg, stmt):
+        try:
+            e = ast.parse(t, mode='eval').body
+        except SyntaxError:
+            return None
+        e = inline_expr(fnode, e)
+        parts.append(e if p else ast.UnaryOp(op=ast.Not(), operand=e))
+    if not parts:
+        return ast.Constant(value=True)
+    return ast.BoolOp(op=ast.And(), values=parts) if len(parts) > 1 else parts[0]
+
+
+def cond_equivalent(e1, e2, assume_true=('device', 'isinstance')):
+    """are two path conditions the same boolean function of their atoms?  Atoms mentioning one of `assume_true` (device dispatch, type checks
+    that raise otherwise) are taken as satisfied.  Returns (bool, description)"""
+    import itertools
+    from .rules_engine import canon_atom
+
+    def atoms(e, acc):
+        if isinstance(e, ast.BoolOp):
+            for v in e.values:
+                atoms(v, acc)
+        elif isinstance(e, ast.UnaryOp) and isinstance(e.op, ast.Not):
+            atoms(e.operand, acc)
+        elif isinstance(e, ast.Constant) and isinstance(e.value, bool):
+            pass
+        else:
+            acc.add(canon_atom(norm(e))[0])
+        return acc
+    names = sorted(atoms(e1, set()) | atoms(e2, set()))
+    free = [a for a in names if not any(k in a for k in assume_true)]
+    if len(free) > 10:
+        return False, 'too many atoms'
+
+    def ev(e, val):
+        if isinstance(e, ast.BoolOp):
+            vs = [ev(v, val) for v in e.values]
+            return all(vs) if isinstance(e.op, ast.And) else any(vs)
+        if isinstance(e, ast.UnaryOp) and isinstance(e.op, ast.Not):
+            return not ev(e.operand, val)
+        if isinstance(e, ast.Constant) and isinstance(e.value, bool):
+            return e.value
+        c, pol = canon_atom(norm(e))
+        v = val.get(c, True)
+        return v if pol else not v
+    for bits in itertools.product((False, True), repeat=len(free)):
+        val = dict(zip(free, bits))
+        if ev(e1, val) != ev(e2, val):
+            return False, 'differ for %s' % val
+    return True, ''
+
+
 def extract(model: Model, func):
     op = Op(func)
     op.model = model
@@ -148,9 +204,8 @@ def extract(model: Model, func):
     rg = op.rg_raw
     if isinstance(rg, ast.Name):
         asg = _assignments(fnode, rg.id)
-        if len(asg) != 1 or asg[0][2] != 'assign':
-            raise Incomplete('requires_grad name %s has %d bindings' % (rg.id, len(asg)))
-        rg = asg[0][1]
+        # (the value itself is decided by evaluation over all requires_grad valuations: rules_flags PROP; the expression is recorded when there is one)
+        rg = asg[0][1] if len(asg) == 1 and asg[0][2] == 'assign' else None
     op.rg_expr = rg
     # ---- closures, attach statements
     nested = {f.name: f for f in model.nested(func)}
